@@ -94,6 +94,18 @@ def second_graph(c, mol, p):
     if mode == "recanon-scrambled":
         # canonicalize, renumber the result (labels != listing order), use that as the second description
         return scramble(c, canon(graph_of(mol.listing()))), ["recanon-scrambled"]
+    if mode == "recanon-edited":
+        # history: the molecule with one more atom (a pendant atom on a solver-chosen atom) was canonicalized, then that
+        # atom was deleted from the canonical graph. The edited graph is a description of the molecule that still
+        # carries the earlier run's partition values (finer than the molecule's own) and non-contiguous labels.
+        atoms, bonds = mol.listing()
+        t = c.choice("pend", mol.n)
+        atoms[mol.n] = {"element_symbol": "Cs", "atomic_number": 55, "partition": 0, "pendant": True}
+        bonds[(t, mol.n)] = {}
+        gc = canon(graph_of((atoms, bonds)))
+        for k in [k for k, d in gc.nodes(data=True) if d.get("pendant")]:
+            gc.remove_node(k)
+        return gc, ["recanon-edited", t]
     if mode == "recanon":
         # the canonical graph itself is a description of the molecule (its listing order differs from its numbering)
         return canon(graph_of(mol.listing())), ["recanon"]
@@ -614,6 +626,24 @@ def c16(**p):
                     c.note("seed_with_different_results", sd)
                     break
             c.oblige("same-seed-same-result-with-the-real-generator", same)
+            # history leg: the SAME graph object is edited after it has been an argument (with this seed) and is
+            # passed again; the result must carry the argument's current attributes and bonds (a result
+            # remembered per object/seed would be stale). The argument is restored afterwards.
+            k0 = list(g.nodes)[-1]
+            g.nodes[k0]["probe"] = 41
+            dropped = None
+            if g.number_of_edges():
+                u, v, d = list(g.edges(data=True))[0]
+                dropped = (u, v, dict(d))
+                g.remove_edge(u, v)
+            try:
+                b2 = t["permute_molecule"](g, 4 / 16)
+                carried = [d.get("tag") for _, d in b2.nodes(data=True) if d.get("probe") == 41] == [g.nodes[k0]["tag"]]
+                c.oblige("edited-argument-is-permuted-afresh", carried and b2.number_of_edges() == g.number_of_edges(), [carried, b2.number_of_edges(), g.number_of_edges()])
+            finally:
+                del g.nodes[k0]["probe"]
+                if dropped:
+                    g.add_edge(dropped[0], dropped[1], **dropped[2])
     return body
 
 
